@@ -12,6 +12,14 @@ pair_coeff, mass, comment prints) is judged against what was written.  Systems a
 documented input forms (arrays, lists, Fortran-ordered, strided, read-only) and, for a share, after earlier
 non-modifying uses of the same System / potential object.
 
+Round 4 classes: (i) atom_style hybrid with two or three sub-styles that share a column (every such combination, enumerated
+in clause hybrid_shared under every unit style that rescales the shared column, and as a share of the generated data and
+snippet cases); (ii) almost orthogonal cells, tilt / box length = +-10**[-12,-3], in all three formats, judged against the
+cell a Box holds after its documented 1e-9 clean-up; (iii) the process-wide working units: a share of the data, dump and
+snippet cases runs after unitconvert.reset_units (named units, integer seeds, 'SI'), the case's physical system expressed in
+those units, optionally after the same dump under the default or yet another configuration in the same process; the
+default units are restored in a finally block.
+
 Listed findings: a disagreement that belongs to an `open:` key of known_findings.txt is collected (class Known)
 and raised only after all other checks of the case have run, so the rest of the oracle stays active behind it;
 blocking ones (the writer raises) are raised at once.  The share guards of the two clauses that are blocked as a
@@ -45,7 +53,10 @@ RULE = ("systems: LAMMPS-compatible cells (orthogonal/triclinic, lengths 0.5-50,
         "default [snippet].  Data/snippet: a share through potential= (8 pair styles built offline, 1-3 model symbols, "
         "allsymbols, system masses, comments on/off; explicit units/atom_style differing from the potential's in most), "
         "f = str | StringIO | file name; all clauses: inputs as arrays | lists | Fortran | strided | read-only, a share "
-        "after earlier non-modifying dumps/reads on the same object")
+        "after earlier non-modifying dumps/reads on the same object; data/snippet: ~25 % hybrids of 2-3 sub-styles sharing a column "
+        "(mostly under unit styles that rescale it; all combinations enumerated in clause hybrid_shared); all formats: ~18 % cells "
+        "with tilt/length = +-10**[-12,-3]; data/dump/snippet: ~25 % under other process-wide working units (named | seed | SI), "
+        "three quarters of them after the same dump under the default / another configuration")
 ASSUMPTIONS = [
     "the SI values of the LAMMPS units are those of the manual's units page (pbt/oracles/lammps_units.py); working-unit "
     "numbers are taken to SI with the plain base units m, kg, s, C of atomman.unitconvert (judged by C09)",
@@ -62,9 +73,16 @@ ASSUMPTIONS = [
     "g/mol is the working unit); a system handed to a potential has all symbols set (potentials asserts it)",
     "data files: the writer's documented wrap (periodic directions wrapped with image flags, non-periodic bounds "
     "extended to hold all atoms) is part of the contract; how far a bound is extended is not checked",
+    "the system's cell is what a Box holds for the vectors handed over: Box.vects zeroes components up to 1e-9 of the largest "
+    "one (documented clean-up, DESIGN 2); it acts again when the data-file wrap extends the cell, so a tilt up to 1e-9 of the "
+    "largest WRITTEN cell component may be written as zero (faces then off by that tilt times the extension)",
+    "working units: unitconvert.reset_units applies a configuration (C09); a system 'in other working units' is the same physical "
+    "system, numbers rescaled with own factors from numericalunits attributes; the potential route's mass numbers are compared "
+    "only while amu is the working mass unit; POSCAR files carry working-unit numbers unconverted and are not run under other units",
 ]
-LEVEL_TEXT = ("Generated systems x atom styles x unit styles x float formats (x input forms, earlier uses of the object, "
-              "potential= with overriding arguments, string/file-like/file-name sinks) written with dump('atom_data'|'atom_dump'|"
+LEVEL_TEXT = ("Generated systems x atom styles (all hybrids of 2-3 sub-styles with a shared column enumerated) x unit styles x float "
+              "formats (x input forms, earlier uses of the object, potential= with overriding arguments, string/file-like/file-name "
+              "sinks, almost orthogonal cells, other process-wide working units incl. after earlier dumps in the process) written with dump('atom_data'|'atom_dump'|"
               "'poscar') and read by independent parsers: structure, counts, bounds/tilt conventions, ids, containment, "
               "and every column against the snapshot converted with an independent unit table, to the printed precision.")
 TECHNIQUE = "independent LAMMPS data/dump and POSCAR readers + LAMMPS-manual unit table; printed-precision interval comparison"
@@ -1060,7 +1078,7 @@ def _oracle_data(case):
         for (i, j), k in (((1, 0), 0), ((2, 0), 1), ((2, 1), 2)):
             # (the tilt of a vector grows with the vector; a zero token only counts where the format resolves the tilt)
             grown = abs(V[i, j]) * fl * max(1.0, (hi[i] - lo[i]) / (V[i, i] * fl))
-            if V[i, j] != 0.0 and grown <= rung and tl[k] == 0.0 and abs(V[i, j]) * fl > 2 * htl[k]:
+            if V[i, j] != 0.0 and grown <= rung and tl[k] == 0.0 and abs(V[i, j]) * fl > htl[k]:
                 Vs[i, j] = 0.0
         if not np.array_equal(Vs, V):
             labels.add('tilt_cleaned_on_extension')
@@ -1840,8 +1858,11 @@ def _blocked():
 _BLOCKED = _blocked()
 
 CLAUSES = [
-    Clause('data', oracle_data, data_cases, quick=9000, thorough=150000,
-           min_share={'nt': 0.15, 'imageflags': 0.18, 'extended': 0.3, 'velocities': 0.11, 'only_yz': 0.015,
+    Clause('data', oracle_data, data_cases, quick=8000, thorough=150000,
+           min_share={'shared': 0.12, 'shared_scaled': 0.085, 'shared_2': 0.045, 'shared_3': 0.07, 'tiny_tilt': 0.09,
+                      'tiny_1e-9_1e-5': 0.05, 'tiny_cleaned': 0.05, 'tiny_1e-5_1e-3': 0.03, 'wu': 0.13, 'wu_pre_default': 0.065,
+                      'wu_pre_other': 0.028, 'wu_named': 0.085, 'wu_seed': 0.015, 'wu_SI': 0.013,
+                      'nt': 0.15, 'imageflags': 0.18, 'extended': 0.3, 'velocities': 0.11, 'only_yz': 0.015,
                       'hybrid': 0.02, 'safecopy': 0.09, 'potential': 0.07, 'pot_override': 0.024, 'pot_own': 0.02,
                       'filename': 0.022, 'read_data': 0.012, 'history': 0.08, 'form_list': 0.04, 'form_fortran': 0.045,
                       'form_readonly': 0.06, 'form_strided': 0.055},
@@ -1849,22 +1870,27 @@ CLAUSES = [
                 "cell (wrap contract), types, positions with image flags re-applied, per-style columns and Velocities against the "
                 "independent unit table; the returned snippet judged as in clause snippet"),
     Clause('hybrid_shared', oracle_data, enumerate=hybrid_enum, nontrivial='shared_scaled',
-           min_share={'shared_scaled': 0.9, 'shared_3': 0.3, 'shared_2': 0.1, 'velocities': 0.3},
+           min_share={'shared_scaled': 0.9, 'shared_3': 0.4, 'shared_2': 0.065, 'velocities': 0.25, 'shared_scaled_q': 0.15,
+                      'shared_scaled_density': 0.3, 'shared_scaled_mass': 0.02, 'shared_scaled_volume': 0.02, 'shared_scaled_eradius': 0.025},
            desc="dump('atom_data') for every combination of two and three sub-styles of atom_style hybrid that share a column with a "
                 "LAMMPS unit, under every unit style that rescales it: the shared column is listed once and converted once"),
-    Clause('dump', oracle_dump, dump_cases, quick=6000, thorough=100000,
-           min_share={'nt': 0.2, 'explicit': 0.12, 'neg_tilt': 0.08, 'own_ids': 0.12, 'history': 0.035, 'form_list': 0.06,
+    Clause('dump', oracle_dump, dump_cases, quick=5500, thorough=100000,
+           min_share={'tiny_tilt': 0.085, 'tiny_1e-9_1e-5': 0.04, 'tiny_cleaned': 0.045, 'tiny_1e-5_1e-3': 0.035, 'wu': 0.12,
+                      'wu_pre_default': 0.065, 'wu_pre_other': 0.025, 'wu_named': 0.08, 'wu_seed': 0.017, 'wu_SI': 0.014,
+                      'nt': 0.2, 'explicit': 0.12, 'neg_tilt': 0.08, 'own_ids': 0.12, 'history': 0.035, 'form_list': 0.06,
                       'form_fortran': 0.065, 'form_readonly': 0.05, 'form_strided': 0.055},
            desc="dump('atom_dump'): ITEM blocks, boundary flags, bounding box <-> lo/hi/tilt relation, column header, "
                 "x|xs|xu|xsu unscaled with the written box, standard columns in LAMMPS units, extras as stored"),
     Clause('poscar', oracle_poscar, poscar_cases, quick=5000, thorough=80000,
-           min_share={} if 'poscar' in _BLOCKED else {'nt': 0.15, 'cartesian': 0.08, 'scaled': 0.12, 'symbols': 0.15, 'zero_count': 0.05,
+           min_share={} if 'poscar' in _BLOCKED else {'tiny_tilt': 0.08, 'tiny_1e-9_1e-5': 0.037, 'tiny_cleaned': 0.05, 'tiny_1e-5_1e-3': 0.03,
+                                                              'nt': 0.15, 'cartesian': 0.08, 'scaled': 0.12, 'symbols': 0.15, 'zero_count': 0.05,
                                                               'repeated_symbol': 0.06, 'form_list': 0.045, 'form_fortran': 0.037,
                                                               'form_readonly': 0.055, 'form_strided': 0.04},
            desc="dump('poscar'): comment, scale, scale*lattice = box, species line, counts per type, mode line, "
                 "positions with the scale applied (up to the box origin), grouped by type"),
     Clause('snippet', oracle_snippet, snippet_cases, quick=1500, thorough=20000,
-           min_share={} if 'snippet' in _BLOCKED else {'nt': 0.4, 'defaults': 0.01, 'pot': 0.22, 'pot_override': 0.18,
+           min_share={} if 'snippet' in _BLOCKED else {'shared': 0.12, 'wu': 0.11, 'tiny_tilt': 0.085,
+                                                               'nt': 0.4, 'defaults': 0.01, 'pot': 0.22, 'pot_override': 0.18,
                                                                'pot_own': 0.08, 'pot_prior_use': 0.05, 'pot_allsymbols_added': 0.02,
                                                                'pot_sysmasses': 0.08, 'pot_comments': 0.08, 'read_data': 0.02,
                                                                'history': 0.12},
